@@ -10,10 +10,13 @@ package checks
 import (
 	"fmt"
 	"sort"
+	"strings"
+	"sync"
 	"testing"
 
 	"pgregory.net/rapid"
 
+	"verif/harness/drv"
 	"verif/harness/nfsx"
 	"verif/harness/stat"
 	"verif/harness/vfs"
@@ -149,3 +152,117 @@ func runC26s(tb stat.TB, c c26sCase) {
 var propC26s = defProp("C26", "TestC26Shrink", genC26s, runC26s)
 
 func TestC26Shrink(t *testing.T) { propC26s.Test(t) }
+
+// ---- several clients listing their own directories at the same time
+//
+// Each client pages through a directory of its own (distinct names, small counts); what the others list at the same
+// moment may not show up in its pages: names, fileids, cookies and eof are this directory's.
+
+type c26cCase struct {
+	Clients int  `json:"clients"`
+	N       int  `json:"n"`
+	PerPage int  `json:"per_page"`
+	Rounds  int  `json:"rounds"`
+	Conn    bool `json:"conn"`
+}
+
+func genC26c(t *rapid.T) c26cCase {
+	return c26cCase{Clients: rapid.IntRange(2, 5).Draw(t, "clients"), N: rapid.IntRange(3, 20).Draw(t, "n"), PerPage: rapid.IntRange(1, 6).Draw(t, "perpage"), Rounds: rapid.IntRange(1, 4).Draw(t, "rounds"), Conn: rapid.Bool().Draw(t, "conn")}
+}
+
+func runC26c(tb stat.TB, c c26cCase) {
+	const id, check = "C26", "TestC26Concurrent"
+	v := vfs.New()
+	for ci := 0; ci < c.Clients; ci++ {
+		v.SeedDir(fmt.Sprintf("/c%d", ci), 0755, 0, 0)
+		for k := 0; k < c.N+ci; k++ {
+			v.SeedFile(fmt.Sprintf("/c%d/n%d_%02d", ci, ci, k), 0644, 0, 0, []byte("x"))
+		}
+	}
+	s := newSession(tb, v, newOpts(cacheCfg{AttrTTLns: 1, AttrSize: 100}))
+	defer s.close()
+	s.e.ViaConn = c.Conn
+	var mu sync.Mutex
+	var msg string
+	guard(func() {
+		root := s.mount()
+		dirs := make([][]byte, c.Clients)
+		for ci := range dirs {
+			r := s.nfs(nfsx.ProcLookup, nfsx.ArgsDirop(root, fmt.Sprintf("c%d", ci)))
+			if r.Status != nfsx.OK {
+				tb.Fatalf("harness: lookup c%d", ci)
+			}
+			dirs[ci] = r.Fh
+		}
+		var wg sync.WaitGroup
+		start := make(chan struct{})
+		for ci := 0; ci < c.Clients; ci++ {
+			wg.Add(1)
+			go func(ci int) {
+				defer wg.Done()
+				defer func() { recover() }()
+				cl := drv.Client{IP: fmt.Sprintf("10.8.0.%d", ci+1), Port: 700, Cred: drv.Root().Cred}
+				<-start
+				for round := 0; round < c.Rounds; round++ {
+					plus := (round+ci)%2 == 0
+					entry := 4 + 8 + 4 + 8 + 8
+					if plus {
+						entry += 4 + 84 + 4 + 4 + 8
+					}
+					count := uint32(4 + 84 + 8 + 8 + c.PerPage*entry + 4)
+					var cookie uint64
+					var verf [8]byte
+					seen := map[string]bool{}
+					for page := 0; page < c.N+ci+4; page++ {
+						var res *nfsx.Res
+						if plus {
+							res = s.nfsAs(cl, nfsx.ProcReaddirplus, nfsx.ArgsReaddirplus(dirs[ci], cookie, verf, count, count))
+						} else {
+							res = s.nfsAs(cl, nfsx.ProcReaddir, nfsx.ArgsReaddir(dirs[ci], cookie, verf, count))
+						}
+						if res.Status != nfsx.OK {
+							mu.Lock()
+							msg = fmt.Sprintf("client %d page %d of its own directory replied %s while %d other clients were listing theirs", ci, page, statusName(res.Status), c.Clients-1)
+							mu.Unlock()
+							return
+						}
+						for _, e := range res.Entries {
+							if !strings.HasPrefix(e.Name, fmt.Sprintf("n%d_", ci)) || seen[e.Name] {
+								mu.Lock()
+								msg = fmt.Sprintf("client %d page %d of /c%d lists %q (another directory's entry, or a repeat) while %d other clients were listing theirs", ci, page, ci, e.Name, c.Clients-1)
+								mu.Unlock()
+								return
+							}
+							seen[e.Name] = true
+							cookie = e.Cookie
+						}
+						verf = res.CookieVerf
+						if res.EOF {
+							break
+						}
+						if len(res.Entries) == 0 {
+							break
+						}
+					}
+					if len(seen) != c.N+ci {
+						mu.Lock()
+						msg = fmt.Sprintf("client %d listed %d of the %d entries of /c%d (round %d) while %d other clients were listing theirs", ci, len(seen), c.N+ci, ci, round, c.Clients-1)
+						mu.Unlock()
+						return
+					}
+				}
+			}(ci)
+		}
+		close(start)
+		wg.Wait()
+	})
+	if msg != "" {
+		stat.Violate(tb, id, check, "listing-mixed-with-another-clients", c, "%s", msg)
+		return
+	}
+	stat.Case(c, true)
+}
+
+var propC26c = defProp("C26", "TestC26Concurrent", genC26c, runC26c)
+
+func TestC26Concurrent(t *testing.T) { propC26c.Test(t) }
